@@ -974,16 +974,35 @@ fn gen_prefixes(rng: &mut Rng64, level: usize, must: &[Vec<bool>], extra: usize)
 }
 
 fn run_poplar(ctx: &mut Ctx, rng: &mut Rng64, real: bool, leaf: bool, trees: usize) {
-    let bits = match rng.below(5) {
-        0 => 1 + rng.usize_below(3),
-        1 => 16 + rng.usize_below(40),
-        _ => 2 + rng.usize_below(12),
+    // Deep trees up to the largest bit length an aggregation parameter can express (level is a u16): the
+    // empty aggregate, accumulate and merge must behave at level 65535 as they do anywhere else. Cheap with
+    // arbitrary shares (1 case in 6); with real reports only a few per shard (1 in 40) and tiny batches.
+    const DEEP: [usize; 12] = [64, 65, 128, 255, 256, 257, 1024, 21846, 32768, 65534, 65535, 65536];
+    let deep = if real { rng.chance(1, 40) } else { rng.chance(1, 6) };
+    let bits = if deep {
+        ctx.count("poplar_deep_tree_cases");
+        *rng.choose(&DEEP)
+    } else {
+        match rng.below(5) {
+            0 => 1 + rng.usize_below(3),
+            1 => 16 + rng.usize_below(40),
+            _ => 2 + rng.usize_below(12),
+        }
     };
-    let level = if leaf || bits == 1 { bits - 1 } else { rng.usize_below(bits - 1) };
+    let level = if leaf || bits == 1 {
+        bits - 1
+    } else if deep && rng.bool() {
+        bits - 2
+    } else {
+        rng.usize_below(bits - 1)
+    };
+    if deep && level == 65535 {
+        ctx.count("poplar_level_65535_cases");
+    }
     let vdaf: Poplar1<XofTurboShake128, 32> = Poplar1::new_turboshake128(bits);
-    let n = if real { gen_n(rng).min(16) } else { gen_n(rng) };
+    let n = if real && deep { gen_n(rng).min(2) } else if real { gen_n(rng).min(16) } else { gen_n(rng) };
     let ms: Vec<Vec<bool>> = (0..n).map(|_| (0..bits).map(|_| rng.bool()).collect()).collect();
-    let extra = rng.usize_below(if real { 6 } else { 40 }) + if n == 0 { 1 } else { 0 };
+    let extra = rng.usize_below(if deep { 3 } else if real { 6 } else { 40 }) + if n == 0 { 1 } else { 0 };
     let prefixes = gen_prefixes(rng, level, if real { &ms } else { &[] }, extra.max(if real { 0 } else { 1 }));
     if prefixes.is_empty() {
         return;
